@@ -70,7 +70,7 @@ type methodKey struct {
 
 var defaultInterp = []string{
 	"io", "strconv", "container/list", "sort", "strings", "bytes", "bufio", "unicode/utf8", "slices", "maps", "cmp",
-	"github.com/elliotchance/orderedmap", "encoding/csv", "encoding/xml", "encoding", "github.com/dimchansky/utfbom", "io/fs", "path", "math/bits", "math",
+	"github.com/elliotchance/orderedmap", "encoding/csv", "encoding/xml", "encoding", "net/url", "github.com/magiconair/properties", "github.com/dimchansky/utfbom", "io/fs", "path", "math/bits", "math",
 }
 
 var defaultBodyOK = []string{
